@@ -375,6 +375,47 @@ def check_step(repo: Repo, rep: Report):
         rep.ok("C09.step-single", run.qualname, "run() = repeat step() until StopIteration", f"{run.file}:{run.line}")
     else:
         rep.bad("C09.step-single", run.qualname, "run-shape", f"Interpreter.run calls step() at {len(steps)} site(s) in {len(loops)} loop(s)", run.file, run.line)
+    # Trace.run drives step() itself and never calls run(): anything run() does to the interpreter besides stepping
+    # (post-processing the finished module, resetting state) makes traced and untraced decompilation differ.
+    def self_writes(fnode) -> List[str]:
+        out = []
+        for n in body_walk(fnode):
+            if isinstance(n, (ast.Assign, ast.AugAssign, ast.AnnAssign, ast.Delete)):
+                for t in store_targets(n):
+                    if (dotted(base_of(t)) or "").split(".")[0] == "self" and not isinstance(t, ast.Name):
+                        out.append(f"store:{dotted(base_of(t)) or src(t)}")
+            if isinstance(n, ast.Call) and isinstance(n.func, ast.Attribute) and n.func.attr in MUTATORS and (dotted(base_of(n.func.value)) or "").split(".")[0] == "self":
+                out.append(f"mutate:{dotted(n.func.value) or src(n.func.value)}.{n.func.attr}")
+            if isinstance(n, ast.Call) and dotted(n.func) in ("setattr", "delattr") and n.args and (dotted(base_of(n.args[0])) or "").split(".")[0] == "self":
+                out.append(f"setattr:{src(n.args[0])}")
+        return out
+
+    extra = self_writes(run.node)
+    for n in body_walk(run.node):
+        if isinstance(n, ast.Call) and isinstance(n.func, ast.Attribute) and dotted(n.func.value) == "self" and n.func.attr != "step":
+            m = ic.method(n.func.attr)
+            if m is None or self_writes(m.node):
+                extra.append(f"call:self.{n.func.attr}")
+    if extra:
+        for e in sorted(set(extra)):
+            rep.bad("C09.step-single", run.qualname, f"run-extra-effect:{e}", f"Interpreter.run changes interpreter state outside step() ({e}); Trace.run drives step() directly and never executes this, so the traced program differs from untraced decompilation", run.file, run.line)
+    else:
+        rep.ok("C09.step-single", run.qualname, "run() has no effect on the interpreter besides calling step(): stepping (what Trace does) and running produce the same module", f"{run.file}:{run.line}")
+    # to_ast's `_module is None` branch is taken only by untraced decompilation (after tracing the module exists):
+    # it may do nothing but run()
+    ta = ic.method("to_ast")
+    if ta is not None:
+        for iff in [n for n in body_walk(ta.node) if isinstance(n, ast.If) and isinstance(n.test, ast.Compare) and dotted(n.test.left) == "self._module"]:
+            only_untraced = iff.body if isinstance(iff.test.ops[0], ast.Is) else iff.orelse
+            holder = ast.Module(body=list(only_untraced), type_ignores=[])
+            ex = self_writes(holder)
+            for n in ast.walk(holder):
+                if isinstance(n, ast.Call) and isinstance(n.func, ast.Attribute) and dotted(n.func.value) == "self" and n.func.attr != "run":
+                    m = ic.method(n.func.attr)
+                    if m is None or self_writes(m.node):
+                        ex.append(f"call:self.{n.func.attr}")
+            for e in sorted(set(ex)):
+                rep.bad("C09.step-single", ta.qualname, f"untraced-only-effect:{e}", f"Interpreter.to_ast changes interpreter state only when no module exists yet ({e}): after Trace.run the module exists, so traced and untraced decompilation differ", ta.file, iff.lineno)
     # the opcode iterator is created once from the pickled object
     init = ic.method("__init__")
     its = [n for n in body_walk(init.node) if isinstance(n, (ast.Assign, ast.AnnAssign)) and dotted(n.targets[0] if isinstance(n, ast.Assign) else n.target) == "self._opcodes"]
@@ -397,7 +438,7 @@ def run(rep: Report, tier: str):
     rep.rule("C09.memo", "only PUT-family/MEMOIZE write (top of stack, VM's key) and GET-family read the memo", 9)
     rep.rule("C09.stack-class", "Stack operations are single-element list operations; snapshots copy", 6)
     rep.rule("C09.trace-passive", "Trace: one step + one on_opcode per iteration, no writes to interpreter/pickle state, returns to_ast()", 6)
-    rep.rule("C09.step-single", "Interpreter.step advances once and runs the opcode once", 3)
+    rep.rule("C09.step-single", "Interpreter.step advances once and runs the opcode once; run() is nothing but repeated step()", 4)
     rep.assume("pickletools.opcodes (CPython's declarative opcode table) is the specification of the pickle VM's stack effects")
     rep.assume("items listed before `mark` in stack_before lie below the mark and survive; mark and everything after it are consumed")
     sums = all_summaries(repo)
